@@ -123,8 +123,21 @@ def rule_pairing(ctx: Ctx, kinds: Set[str], clause: str, clause_flow: str):
     return n
 
 
+def enter_delegate(value: Optional[ast.AST]) -> Optional[ast.Call]:
+    """The delegated `<state>.enter(...)` call when a return value is that call, or the pair of its two
+    projections `(r[0], r[1])` (result inspected before being handed on)."""
+    if isinstance(value, ast.Call) and isinstance(value.func, ast.Attribute) and value.func.attr == "enter":
+        return value
+    if isinstance(value, ast.Tuple) and len(value.elts) == 2:
+        a, b = value.elts
+        if (isinstance(a, ast.Subscript) and isinstance(b, ast.Subscript) and isinstance(a.slice, ast.Constant) and isinstance(b.slice, ast.Constant)
+                and a.slice.value == 0 and b.slice.value == 1 and flow.same(a.value, b.value)):
+            return enter_delegate(a.value)
+    return None
+
+
 def _is_enter_delegation(value: Optional[ast.AST]) -> bool:
-    return isinstance(value, ast.Call) and isinstance(value.func, ast.Attribute) and value.func.attr == "enter"
+    return enter_delegate(value) is not None
 
 
 def released_kinds(sc: states.StateClass, kinds: Set[str]) -> Set[str]:
@@ -231,10 +244,9 @@ def _classify_enter_arg(fn: Func, p: flow.Path, ev: flow.Event, arg, kinds, hold
     sim_param = fn.params[1] if fn.cls is not None and len(fn.params) > 1 else (fn.params[0] if fn.params else None)
     # (b) delegation inside an enter: `return X.enter(sim, env)` with the untouched sim
     if fn.name == "enter" and fn.cls is not None:
-        stmt = ev.stmt
-        if isinstance(stmt, ast.Return) and stmt.value is ev.raw and isinstance(arg, ast.Name) and arg.id == sim_param:
-            return "ok", "delegation: directly returned, with the state enter received (the delegate's own exit pairs with it)"
-        return "delegation-not-direct", "enter called inside an enter but not directly returned with the unchanged state"
+        if isinstance(arg, ast.Name) and arg.id == sim_param:
+            return "ok", "delegation inside an enter, on the very state this enter received (nothing acquired before; the delegate's own exit pairs with what it acquires)"
+        return "delegation-on-changed-state", "enter called inside an enter on a state that was already changed: what was acquired before the delegation has no matching release"
     # (a) paired: arg is <prev>.exit(next, sim, env)[1]
     def is_exit_proj(e):
         return (isinstance(e, ast.Subscript) and isinstance(e.slice, ast.Constant) and e.slice.value == 1
@@ -521,7 +533,7 @@ def rule_fold_threading(ctx: Ctx, clause: str, fn: Func, min_sites: int = 1, rul
     return n
 
 
-def rule_default_update(ctx: Ctx, clause: str):
+def rule_default_update(ctx: Ctx, clause: str, require_perform_update: bool = False):
     """default_update: terminal condition => transition_previous_to_next(state -> default terminal state)
     followed by the NEW state's _perform_update (not its update(): that would re-test the new state's
     terminal condition and could skip its first step); otherwise the current state's _perform_update;
@@ -544,7 +556,11 @@ def rule_default_update(ctx: Ctx, clause: str):
             n += 1
             if term:
                 has = any(flow.same(c, trans) for c in flow.calls_in(p.value, "transition_previous_to_next"))
-                perf = isinstance(p.value, ast.Call) and isinstance(p.value.func, ast.Attribute) and p.value.func.attr == "_perform_update"
+                # C03 needs the NEW activity's _perform_update (its first step, e.g. the drop-off of a zero-length trip, must
+                # not be skipped by re-testing the terminal condition); for the count/queue/leaving properties either
+                # continuation keeps the transition itself intact
+                perf = isinstance(p.value, ast.Call) and isinstance(p.value.func, ast.Attribute) and p.value.func.attr in (
+                    ("_perform_update",) if require_perform_update else ("_perform_update", "update"))
                 ctx.check(has and perf, clause, "ORD.terminal", "default_update: terminal condition => transition_previous_to_next(state -> default terminal state), then the new state's update",
                           du, p.end, why_bad=f"terminal path returns {flow.dump(p.value)[:200]}", construct="default_update:terminal-shape")
             elif nonterm:
